@@ -168,8 +168,13 @@ def work(case: dict) -> dict:
     e0 = _EV["evals"]
     if case["mode"] == "trees":
         items = []
+        hangs = 0
         for it in case["items"]:
+            if hangs >= 3:          # do not burn the whole budget on a converter that no longer terminates
+                items.append({"i": it["i"], "not_run": True})
+                continue
             ob = _observe(it["xml"])
+            hangs += 1 if ob.get("hang") else 0
             ob["i"] = it["i"]
             items.append(ob)
         return {"items": items, "evals": _EV["evals"] - e0, "rebinds": _EV["rebinds"]}
@@ -190,6 +195,18 @@ def work(case: dict) -> dict:
         res["mut_in_doc"] = any(e["mut"] for e in _EV["events"])
         res["evals"] = _EV["evals"] - e0
         return res
+    if case["mode"] == "deep":
+        f = _EV["fn"]
+        d = case["depth"]
+        xml = (f'<m:oMath xmlns:m="http://schemas.openxmlformats.org/officeDocument/2006/math">' + "<m:d><m:e>" * d
+               + "<m:r><m:t>qb00001z</m:t></m:r>" + "</m:e></m:d>" * d + "</m:oMath>")
+        try:
+            out = f(ET.fromstring(xml))
+            return {"outcome": "returned" if out.count("(") == d else "returned-wrong", "evals": 1}
+        except BaseException as e:
+            if type(e).__name__ == "CpuBudget":
+                raise
+            return {"outcome": type(e).__name__, "evals": 0}
     if case["mode"] == "table":
         M = importlib.import_module(MODNAME)
         return {"map": {c: M.convert_greek_and_symbols(c) for c in case["chars"]},
@@ -504,7 +521,7 @@ def main(run):
         nonlocal skipped_multi
         batch = []
         for family, spec in _families(run, O, tok):
-            if broken:
+            if broken or len(hangs) >= 10:
                 return
             i = register(family, spec)
             a = meta[i]["a"]
@@ -529,6 +546,7 @@ def main(run):
     # ------------------------------------------------------------------ run the trees
     obs: dict[int, dict] = {}
     broken: list = []
+    hangs: list = []
     evals = 0
     rebinds = None
     retry: list[dict] = []
@@ -548,7 +566,12 @@ def main(run):
         evals += ob["evals"]
         rebinds = ob["rebinds"] if rebinds is None else min(rebinds, ob["rebinds"])
         for it in ob["items"]:
+            if it.get("not_run"):
+                run.count("trees_not_run_after_hangs")
+                continue
             obs[it["i"]] = it
+            if it.get("hang"):
+                hangs.append(it["i"])
     if broken:
         return
     if retry:
@@ -641,6 +664,10 @@ def main(run):
         if ob["joined"] != O.map_text("".join(O.SYMBOL_CHARS)):
             run.violation("C19:convert_greek_and_symbols:clean:symbol-mapped-wrong", "all mapped characters in one string differ", {"chars": "all"})
         run.case("symbol-table")
+
+    # ------------------------------------------------------------------ outside the quantifier (depth <= 8): recorded, never judged
+    for case, ob in pool.run_cases("checks.c19:work", [{"mode": "deep", "depth": d} for d in (100, 400, 2000)], workers=1, deadline_s=120):
+        run.count(f"probe_outside_quantifier:nesting-depth-{case['depth']}:{ob.get('outcome', 'worker-problem')}")
 
     # ------------------------------------------------------------------ integration: formulas inside docx / pptx
     integ = _integration(run, O, pool, core, specs, meta, obs, integ_pool, tok)
